@@ -1,7 +1,7 @@
 // C10: FlatMap and ParameterizedObject conform to an insertion-ordered unique-key map.
 // Engine seqmc: every history of mutating operations up to a depth, replayed on fresh objects in
-// lock step with a boring reference model (std::vector with find-or-append); after every step every
-// non-mutating query is asked for every key and the full ordered contents are compared.
+// lock step with a boring reference model (an array with find-or-append); after every step the
+// non-mutating queries are asked and the full ordered contents are compared.
 #include "C10_seqmc.h"
 
 #include "rkcommon/containers/FlatMap.h"
@@ -13,6 +13,7 @@ using rkcommon::containers::FlatMap;
 using rkcommon::utility::ParameterizedObject;
 
 // ------------------------------------------------------------------------------------ FlatMap
+// keys are named 0..2 (3 is never inserted), values 1..2 (0 is the default-constructed value)
 template <class K, class V>
 struct Dom;
 
@@ -21,8 +22,16 @@ struct Dom<int, int>
 {
   static const char *sysname() { return "FlatMap<int,int>"; }
   static const char *tag() { return "fm-int"; }
-  static int key(int i) { static const int k[4] = {7, -3, 0, 1000}; return k[i]; }  // key(3) is never inserted
-  static int val(int i) { static const int v[2] = {11, 22}; return v[i]; }
+  static const int &key(int i)
+  {
+    static const int k[4] = {7, -3, 0, 1000};
+    return k[i];
+  }
+  static const int &val(int i)
+  {
+    static const int v[3] = {0, 11, 22};
+    return v[i];
+  }
   static std::string show(int x) { return std::to_string(x); }
 };
 
@@ -31,14 +40,14 @@ struct Dom<std::string, std::string>
 {
   static const char *sysname() { return "FlatMap<string,string>"; }
   static const char *tag() { return "fm-str"; }
-  static std::string key(int i)
+  static const std::string &key(int i)
   {
-    static const char *k[4] = {"a", "b", "a-key-longer-than-the-small-string-buffer", "never"};
+    static const std::string k[4] = {"a", "b", "a-key-longer-than-the-small-string-buffer", "never"};
     return k[i];
   }
-  static std::string val(int i)
+  static const std::string &val(int i)
   {
-    static const char *v[2] = {"x", "a-value-longer-than-the-small-string-buffer"};
+    static const std::string v[3] = {"", "x", "a-value-longer-than-the-small-string-buffer"};
     return v[i];
   }
   static std::string show(const std::string &x) { return "'" + (x.size() > 8 ? x.substr(0, 7) + "~" : x) + "'"; }
@@ -48,9 +57,34 @@ template <class K, class V>
 struct FmSys
 {
   typedef Dom<K, V> D;
-  typedef std::vector<std::pair<K, V>> Model;
   typedef FlatMap<K, V> Map;
-  enum Kind { SET, READ, ATSET, ERASE, CLEAR, RESERVE, IDXSET };
+  typedef std::vector<std::pair<K, V>> Items;
+  struct Model  // ordered (key name, value name)
+  {
+    unsigned char n = 0, key[3], val[3];
+    int find(int k) const
+    {
+      for (int i = 0; i < n; i++)
+        if (key[i] == k)
+          return i;
+      return -1;
+    }
+    void append(int k, int v)
+    {
+      key[n] = (unsigned char)k;
+      val[n] = (unsigned char)v;
+      n++;
+    }
+    void remove(int i)
+    {
+      for (int j = i; j + 1 < n; j++) {
+        key[j] = key[j + 1];
+        val[j] = val[j + 1];
+      }
+      n--;
+    }
+  };
+  enum Kind { SET, READ, ATSET, ERASE, CLEAR, RESERVE };
   struct Op
   {
     Kind kind;
@@ -63,101 +97,89 @@ struct FmSys
   {
     // simplest first
     for (int k = 0; k < 3; k++)
-      for (int v = 0; v < 2; v++)
+      for (int v = 1; v <= 2; v++)
         ops.push_back(Op{SET, k, v, "S" + std::to_string(k) + std::to_string(v), "operator[] write"});
     for (int k = 0; k < 3; k++)
       ops.push_back(Op{ERASE, k, 0, "E" + std::to_string(k), "erase"});
     for (int k = 0; k < 3; k++)
       ops.push_back(Op{READ, k, 0, "R" + std::to_string(k), "operator[] read"});
-    ops.push_back(Op{CLEAR, 0, 0, "X", "clear"});
-    for (int k = 0; k < 3; k++)
-      ops.push_back(Op{ATSET, k, 1, "W" + std::to_string(k), "at() write"});
-    ops.push_back(Op{RESERVE, 0, 0, "V", "reserve"});
-    ops.push_back(Op{IDXSET, 0, 1, "I0", "at_index() write"});
+    ops.push_back(Op{CLEAR, -1, 0, "X", "clear"});
+    ops.push_back(Op{ATSET, 1, 2, "W1", "at() write"});
+    ops.push_back(Op{RESERVE, -1, 0, "V", "reserve"});
   }
   const char *sysname() const { return D::sysname(); }
   const char *tag() const { return D::tag(); }
   Model initial() const { return Model(); }
   int nops() const { return (int)ops.size(); }
-  std::string opname(int op) const { return ops[op].name; }
-  std::string opclass(int op) const { return ops[op].cls; }
+  const std::string &opname(int op) const { return ops[op].name; }
+  const std::string &opclass(int op) const { return ops[op].cls; }
   bool enabled(const Model &, int) const { return true; }
 
-  struct Expect
-  {
-    bool throws = false;
-    bool has_value = false;
-    V value;
-  };
-  static typename Model::iterator find(Model &m, const K &k)
-  {
-    typename Model::iterator it = m.begin();
-    while (it != m.end() && !(it->first == k))
-      ++it;
-    return it;
-  }
-  // the reference map
-  Expect apply(Model &m, int op) const
+  // the reference map; result: -1 nothing returned, -2 must throw std::out_of_range, else the value name returned
+  int apply(Model &m, int op) const
   {
     const Op &o = ops[op];
-    Expect e;
-    K key = D::key(o.k);
-    typename Model::iterator it = find(m, key);
+    int i = o.k >= 0 ? m.find(o.k) : -1;
     switch (o.kind) {
     case SET:
-      if (it == m.end())
-        m.push_back(std::make_pair(key, D::val(o.v)));
+      if (i < 0)
+        m.append(o.k, o.v);
       else
-        it->second = D::val(o.v);
-      break;
+        m.val[i] = (unsigned char)o.v;
+      return -1;
     case READ:
-      if (it == m.end()) {
-        m.push_back(std::make_pair(key, V()));
-        it = m.end() - 1;
+      if (i < 0) {
+        m.append(o.k, 0);
+        return 0;
       }
-      e.has_value = true;
-      e.value = it->second;
-      break;
+      return m.val[i];
     case ATSET:
-      if (it == m.end())
-        e.throws = true;
-      else
-        it->second = D::val(o.v);
-      break;
+      if (i < 0)
+        return -2;
+      m.val[i] = (unsigned char)o.v;
+      return -1;
     case ERASE:
-      if (it != m.end())
-        m.erase(it);
-      break;
+      if (i >= 0)
+        m.remove(i);
+      return -1;
     case CLEAR:
-      m.clear();
-      break;
+      m.n = 0;
+      return -1;
     case RESERVE:
-      break;
-    case IDXSET:  // write through at_index(0) when there is an element 0; otherwise only must not corrupt
-      if (!m.empty())
-        m[0].second = D::val(o.v);
-      break;
+      return -1;
     }
-    return e;
+    return -1;
   }
   void advance(Model &m, int op) const { apply(m, op); }
 
-  static std::string show(const Model &m)
+  static Items items(const Model &m)
+  {
+    Items r;
+    for (int i = 0; i < m.n; i++)
+      r.push_back(std::make_pair(D::key(m.key[i]), D::val(m.val[i])));
+    return r;
+  }
+  static std::string show(const Items &m)
   {
     std::string s = "{";
     for (size_t i = 0; i < m.size(); i++)
       s += (i ? " " : "") + D::show(m[i].first) + ":" + D::show(m[i].second);
     return s + "}";
   }
-
-  // what exactly differs between the observed and the wanted ordered contents
-  static std::string classify(const Model &got, const Model &want)
+  static typename Items::iterator find(Items &m, const K &k)
   {
-    for (size_t i = 0; i < got.size(); i++)
-      for (size_t j = i + 1; j < got.size(); j++)
-        if (got[i].first == got[j].first)
+    typename Items::iterator it = m.begin();
+    while (it != m.end() && !(it->first == k))
+      ++it;
+    return it;
+  }
+  // what exactly differs between the observed and the wanted ordered contents
+  static std::string classify(Items g, Items w)
+  {
+    for (size_t i = 0; i < g.size(); i++)
+      for (size_t j = i + 1; j < g.size(); j++)
+        if (g[i].first == g[j].first)
           return "a key is stored twice";
-    Model g = got, w = want;
     for (size_t i = 0; i < w.size(); i++)
       if (find(g, w[i].first) == g.end())
         return "an inserted key is missing";
@@ -178,117 +200,128 @@ struct FmSys
     std::unique_ptr<Map> map;
     Run(const FmSys &s, sq::Ctx &c) : sys(s), ctx(c), map(new Map()) {}
 
+    // does the range hold exactly the model's pairs, in the model's order (or reversed)?
     template <class It>
-    static Model collect(It b, It e)
+    bool same(It b, It e, bool reversed) const
     {
-      Model m;
-      for (; b != e; ++b)
-        m.push_back(*b);
-      return m;
+      int i = 0;
+      for (; b != e; ++b, ++i) {
+        if (i >= model.n)
+          return false;
+        int j = reversed ? model.n - 1 - i : i;
+        if (!(b->first == D::key(model.key[j])) || !(b->second == D::val(model.val[j])))
+          return false;
+      }
+      return i == model.n;
     }
-
-    bool same_contents(const Model &got, const char *via, const std::string &cls)
+    template <class It>
+    bool range_ok(It b, It e, bool reversed, const char *via, const std::string &cls)
     {
-      if (got == model)
+      if (same(b, e, reversed))
         return true;
-      ctx.viol(cls + "|" + classify(got, model), std::string("contents via ") + via + " " + show(got) + " want " + show(model));
+      Items got(b, e);
+      if (reversed)
+        std::reverse(got.begin(), got.end());
+      ctx.viol(cls + "|" + classify(got, items(model)), std::string("contents via ") + via + " " + show(got) + " want " + show(items(model)));
       return false;
     }
 
-    void observe_all(const std::string &cls)
+    bool const_at(int k, const std::string &cls)
     {
+      const Map &cm = *map;
+      const K &key = D::key(k);
+      int i = k < 3 ? model.find(k) : -1;
+      bool threw = false, other = false;
+      const V *got = nullptr;
+      try {
+        got = &cm.at(key);
+      } catch (const std::out_of_range &) {
+        threw = true;
+      } catch (...) {
+        threw = other = true;
+      }
+      if (other)
+        ctx.viol(cls + "|at() throws something other than std::out_of_range", "const at() key " + D::show(key));
+      else if (threw != (i < 0))
+        ctx.viol(cls + (i >= 0 ? "|at() throws for a present key" : "|at() does not throw for an absent key"), "const at() key " + D::show(key) + ", map " + show(items(model)));
+      else if (i >= 0 && !(*got == D::val(model.val[i])))
+        ctx.viol(cls + "|at() returns a value other than the last one written", "const at() key " + D::show(key) + " = " + D::show(*got) + " want " + D::show(D::val(model.val[i])));
+      return !ctx.failed;
+    }
+
+    void observe_all(const Op &o)
+    {
+      const std::string &cls = o.cls;
       Map &m = *map;
       const Map &cm = *map;
-      if (!same_contents(collect(m.begin(), m.end()), "begin()..end()", cls))
+      if (!range_ok(m.begin(), m.end(), false, "begin()..end()", cls) || !range_ok(cm.begin(), cm.end(), false, "const begin()..end()", cls)
+          || !range_ok(cm.cbegin(), cm.cend(), false, "cbegin()..cend()", cls) || !range_ok(m.rbegin(), m.rend(), true, "rbegin()..rend()", cls)
+          || !range_ok(cm.rbegin(), cm.rend(), true, "const rbegin()..rend()", cls) || !range_ok(cm.crbegin(), cm.crend(), true, "crbegin()..crend()", cls))
         return;
-      if (!same_contents(collect(cm.begin(), cm.end()), "const begin()..end()", cls))
-        return;
-      if (!same_contents(collect(cm.cbegin(), cm.cend()), "cbegin()..cend()", cls))
-        return;
-      {
-        Model r = collect(m.rbegin(), m.rend());
-        std::reverse(r.begin(), r.end());
-        if (!same_contents(r, "reversed rbegin()..rend()", cls))
-          return;
-        r = collect(cm.crbegin(), cm.crend());
-        std::reverse(r.begin(), r.end());
-        if (!same_contents(r, "reversed crbegin()..crend()", cls))
-          return;
-        r = collect(cm.rbegin(), cm.rend());
-        std::reverse(r.begin(), r.end());
-        if (!same_contents(r, "reversed const rbegin()..rend()", cls))
-          return;
-      }
-      if (cm.size() != model.size() || (cm.empty() != 0) != model.empty()) {
+      if (cm.size() != model.n || (cm.empty() != 0) != (model.n == 0)) {
         ctx.viol(cls + "|size()/empty() differ from the number of present keys",
-            "size() " + std::to_string(cm.size()) + " empty() " + std::to_string(cm.empty()) + " want size " + std::to_string(model.size()));
+            "size() " + std::to_string(cm.size()) + " empty() " + std::to_string(cm.empty()) + " want size " + std::to_string(model.n));
         return;
       }
-      for (size_t i = 0; i < model.size(); i++) {
-        if (!(cm.at_index(i) == model[i]) || !(m.at_index(i) == model[i])) {
+      for (int i = 0; i < model.n; i++) {
+        const typename Map::item_t &a = cm.at_index(i), &b = m.at_index(i);
+        if (!(a.first == D::key(model.key[i])) || !(a.second == D::val(model.val[i])) || &a != &b) {
           ctx.viol(cls + "|at_index(i) is not the i-th key in first-insertion order",
-              "at_index(" + std::to_string(i) + ") = " + D::show(cm.at_index(i).first) + ":" + D::show(cm.at_index(i).second) + " want " + D::show(model[i].first) + ":" + D::show(model[i].second));
+              "at_index(" + std::to_string(i) + ") = " + D::show(a.first) + ":" + D::show(a.second) + ", map " + show(items(model)));
           return;
         }
       }
       for (int k = 0; k < 4; k++) {
-        K key = D::key(k);
-        typename Model::iterator it = find(model, key);
-        bool present = it != model.end();
-        if (cm.contains(key) != present) {
-          ctx.viol(cls + (present ? "|contains() false for a present key" : "|contains() true for an absent key"), "contains(" + D::show(key) + ") = " + (present ? "false" : "true") + ", map " + show(model));
+        const K &key = D::key(k);
+        int i = k < 3 ? model.find(k) : -1;
+        if (cm.contains(key) != (i >= 0)) {
+          ctx.viol(cls + (i >= 0 ? "|contains() false for a present key" : "|contains() true for an absent key"), "contains(" + D::show(key) + "), map " + show(items(model)));
           return;
         }
-        for (int cst = 0; cst < 2; cst++) {
-          bool threw = false, other = false;
-          V got = V();
+        if (i >= 0) {  // present: both overloads return the last value written
+          if (!const_at(k, cls))
+            return;
+          bool ok = false;
           try {
-            got = cst ? cm.at(key) : m.at(key);
-          } catch (const std::out_of_range &) {
-            threw = true;
+            ok = m.at(key) == D::val(model.val[i]);
           } catch (...) {
-            threw = other = true;
           }
-          const char *fn = cst ? "const at()" : "at()";
-          if (other) {
-            ctx.viol(cls + "|at() throws something other than std::out_of_range", std::string(fn) + " key " + D::show(key));
+          if (!ok) {
+            ctx.viol(cls + "|at() throws for a present key or returns a value other than the last one written", "at() key " + D::show(key) + ", map " + show(items(model)));
             return;
           }
-          if (threw != !present) {
-            ctx.viol(cls + (present ? "|at() throws for a present key" : "|at() does not throw for an absent key"), std::string(fn) + " key " + D::show(key) + ", map " + show(model));
+        } else {
+          // absent: at() must throw.  Exceptions are slow, so per state this is asked of the const overload
+          // for the key the operation just touched (every key after clear() and in histories of length <= 3);
+          // the non-const overload on an absent key is the alphabet's own "at() write".
+          bool ask = ctx.cur < 3 || o.kind == CLEAR || o.k == k;
+          if (ask && !const_at(k, cls))
             return;
-          }
-          if (present && !(got == it->second)) {
-            ctx.viol(cls + "|at() returns a value other than the last one written", std::string(fn) + " key " + D::show(key) + " = " + D::show(got) + " want " + D::show(it->second));
-            return;
-          }
         }
       }
       // the queries did not change anything
-      same_contents(collect(m.begin(), m.end()), "begin()..end() after the queries", "queries after " + cls);
+      range_ok(m.begin(), m.end(), false, "begin()..end() after the queries", "queries after " + cls);
     }
 
     void step(int op, bool fresh)
     {
       const Op &o = sys.ops[op];
-      Expect e = sys.apply(model, op);
-      K key = D::key(o.k);
+      int want = sys.apply(model, op);
       bool threw = false, other = false;
-      V got = V();
-      std::string res;
+      const V *got = nullptr;
       try {
         switch (o.kind) {
         case SET:
-          (*map)[key] = D::val(o.v);
+          (*map)[D::key(o.k)] = D::val(o.v);
           break;
         case READ:
-          got = (*map)[key];
+          got = &(*map)[D::key(o.k)];
           break;
         case ATSET:
-          map->at(key) = D::val(o.v);
+          map->at(D::key(o.k)) = D::val(o.v);
           break;
         case ERASE:
-          map->erase(key);
+          map->erase(D::key(o.k));
           break;
         case CLEAR:
           map->clear();
@@ -296,48 +329,38 @@ struct FmSys
         case RESERVE:
           map->reserve(8);
           break;
-        case IDXSET:
-          if (!model.empty())
-            map->at_index(0).second = D::val(o.v);
-          else {
-            try {  // index == size(): outside the statement, only must not corrupt anything
-              (void)map->at_index(0);
-            } catch (const std::out_of_range &) {
-            }
-          }
-          break;
         }
       } catch (const std::out_of_range &) {
         threw = true;
       } catch (...) {
         threw = other = true;
       }
-      if (other || threw != e.throws) {
-        ctx.viol(o.cls + (e.throws ? "|does not throw std::out_of_range for an absent key" : "|throws"), "operation " + o.name + (threw ? " threw" : " did not throw"));
+      if (other || threw != (want == -2)) {
+        ctx.viol(o.cls + (want == -2 ? "|does not throw std::out_of_range for an absent key" : "|throws"), "operation " + o.name + (threw ? " threw" : " did not throw"));
         return;
       }
-      if (e.has_value && !(got == e.value)) {
-        ctx.viol(o.cls + "|returns a value other than the last one written (default for a new key)", "got " + D::show(got) + " want " + D::show(e.value));
+      if (want >= 0 && !(*got == D::val(want))) {
+        ctx.viol(o.cls + "|returns a value other than the last one written (default for a new key)", "got " + D::show(*got) + " want " + D::show(D::val(want)));
         return;
       }
-      if (e.has_value)
-        res = D::show(got);
-      if (threw)
-        res = "throws";
       if (fresh) {
-        observe_all(o.cls);
+        observe_all(o);
         if (ctx.failed)
           return;
-        vr::outcome(std::string(D::tag()) + o.name + res + show(model));
-      } else if (map->size() != model.size()) {
-        ctx.viol(o.cls + "|size()/empty() differ from the number of present keys", "size() " + std::to_string(map->size()) + " want " + std::to_string(model.size()));
+        uint64_t h = sq::mix(vr::fnv(D::tag()), (uint64_t)op * 16 + (want + 2));
+        for (int i = 0; i < model.n; i++)
+          h = sq::mix(h, model.key[i] * 4 + model.val[i]);
+        sq::outcomes().add(h);
+      } else if (map->size() != model.n) {
+        ctx.viol(o.cls + "|size()/empty() differ from the number of present keys", "size() " + std::to_string(map->size()) + " want " + std::to_string(model.n));
         return;
       }
-      ctx.say("  %-3s %-18s -> %-8s map %s   [reference %s]\n", o.name.c_str(), o.cls.c_str(), res.c_str(),
-          show(collect(map->begin(), map->end())).c_str(), show(model).c_str());
+      if (ctx.verbose)
+        printf("  %-3s %-18s -> %-8s map %s   [reference %s]\n", o.name.c_str(), o.cls.c_str(), want == -2 ? "throws" : want >= 0 ? D::show(*got).c_str() : "",
+            show(Items(map->begin(), map->end())).c_str(), show(items(model)).c_str());
     }
     void finish() { map.reset(); }
-    std::string describe() const { return show(collect(map->cbegin(), map->cend())); }
+    std::string describe() const { return show(Items(map->cbegin(), map->cend())); }
   };
 };
 
@@ -353,13 +376,21 @@ struct PoSys
   enum Type { T_INT, T_FLOAT, T_STRING };
   struct Entry
   {
-    int name;
-    int type;
-    std::string value;  // printed form
-    bool queried;
-    bool operator==(const Entry &o) const { return name == o.name && type == o.type && value == o.value && queried == o.queried; }
+    unsigned char name, type, val, queried;
+    bool operator==(const Entry &o) const { return name == o.name && type == o.type && val == o.val && queried == o.queried; }
   };
-  typedef std::vector<Entry> Model;
+  struct Model  // ordered
+  {
+    unsigned char n = 0;
+    Entry e[2];
+    int find(int name) const
+    {
+      for (int i = 0; i < n; i++)
+        if (e[i].name == name)
+          return i;
+      return -1;
+    }
+  };
   enum Kind { SETI, SETF, SETS, GETI, GETF, GETS, REMOVE, RESET };
   struct Op
   {
@@ -368,113 +399,128 @@ struct PoSys
     std::string name, cls;
   };
   std::vector<Op> ops;
-  static const char *pname(int n)
+  static const std::string &pname(int n)
   {
-    static const char *names[3] = {"a", "b", "c"};  // "c" is never set
+    static const std::string names[3] = {"a", "b", "c"};  // "c" is never set
     return names[n];
   }
-  static int ival(int v) { return v ? 2 : 1; }
+  static int ival(int v) { return v == 2 ? 2 : 1; }
   static float fval() { return 1.5f; }
-  static std::string sval() { return "a-string-longer-than-the-small-string-buffer"; }
-  static std::string pi(int x) { return "i:" + std::to_string(x); }
-  static std::string pf(float x)
+  static const std::string &sval()
   {
-    char b[32];
-    snprintf(b, sizeof b, "f:%g", x);
-    return b;
+    static const std::string s = "a-string-longer-than-the-small-string-buffer";
+    return s;
   }
-  static std::string ps(const std::string &x) { return "s:" + (x.size() > 8 ? x.substr(0, 7) + "~" : x); }
+  static const std::string &sdflt()
+  {
+    static const std::string s = "dflt";
+    return s;
+  }
+  static std::string pv(int type, int val)
+  {
+    if (type == T_INT)
+      return "i:" + std::to_string(ival(val));
+    if (type == T_FLOAT)
+      return "f:1.5";
+    return "s:a-strin~";
+  }
 
   PoSys()
   {
     for (int n = 0; n < 2; n++) {
-      std::string a = pname(n);
-      ops.push_back(Op{SETI, n, 0, "si1" + a, "setParam<int>"});
-      ops.push_back(Op{SETI, n, 1, "si2" + a, "setParam<int>"});
-      ops.push_back(Op{SETF, n, 0, "sf" + a, "setParam<float>"});
-      ops.push_back(Op{SETS, n, 0, "ss" + a, "setParam<string>"});
+      const std::string &a = pname(n);
+      ops.push_back(Op{SETI, n, 1, "si1" + a, "setParam<int>"});
+      if (n == 0)
+        ops.push_back(Op{SETI, n, 2, "si2" + a, "setParam<int>"});
+      ops.push_back(Op{SETF, n, 1, "sf" + a, "setParam<float>"});
+      if (n == 0)  // name b only ever holds int or float: enough for a type change under a second name
+        ops.push_back(Op{SETS, n, 1, "ss" + a, "setParam<string>"});
     }
     for (int n = 0; n < 2; n++) {
-      std::string a = pname(n);
+      const std::string &a = pname(n);
       ops.push_back(Op{GETI, n, 0, "gi" + a, "getParam<int>"});
       ops.push_back(Op{GETF, n, 0, "gf" + a, "getParam<float>"});
-      ops.push_back(Op{GETS, n, 0, "gs" + a, "getParam<string>"});
+      if (n == 0)
+        ops.push_back(Op{GETS, n, 0, "gs" + a, "getParam<string>"});
     }
     for (int n = 0; n < 2; n++)
-      ops.push_back(Op{REMOVE, n, 0, std::string("rm") + pname(n), "removeParam"});
-    ops.push_back(Op{RESET, 0, 0, "reset", "resetAllParamQueryStatus"});
+      ops.push_back(Op{REMOVE, n, 0, "rm" + pname(n), "removeParam"});
+    ops.push_back(Op{RESET, -1, 0, "reset", "resetAllParamQueryStatus"});
   }
   const char *sysname() const { return "ParameterizedObject"; }
   const char *tag() const { return "po"; }
   Model initial() const { return Model(); }
   int nops() const { return (int)ops.size(); }
-  std::string opname(int op) const { return ops[op].name; }
-  std::string opclass(int op) const { return ops[op].cls; }
+  const std::string &opname(int op) const { return ops[op].name; }
+  const std::string &opclass(int op) const { return ops[op].cls; }
   bool enabled(const Model &, int) const { return true; }
 
-  static Model::iterator find(Model &m, int name)
-  {
-    Model::iterator it = m.begin();
-    while (it != m.end() && it->name != name)
-      ++it;
-    return it;
-  }
-  // reference: returns the printed value a typed read must yield ("" = not a read)
-  std::string apply(Model &m, int op, std::string *state_class = nullptr) const
+  // reference.  For a typed read the result is the value name that must come back, 0 = the caller's default; -1 no result.
+  // sc (optional) names the model-state predicate that matters for the operation.
+  int apply(Model &m, int op, const char **sc = nullptr) const
   {
     const Op &o = ops[op];
-    Model::iterator it = find(m, o.n);
-    bool present = it != m.end();
-    if (state_class)
-      *state_class = !present ? "absent name" : "present name";
+    int i = o.n >= 0 ? m.find(o.n) : -1;
+    const char *dummy;
+    const char *&cls = sc ? *sc : dummy;
+    cls = i < 0 ? "absent name" : "present name";
     switch (o.kind) {
     case SETI:
     case SETF:
     case SETS: {
-      int ty = o.kind == SETI ? T_INT : o.kind == SETF ? T_FLOAT : T_STRING;
-      std::string v = o.kind == SETI ? pi(ival(o.v)) : o.kind == SETF ? pf(fval()) : ps(sval());
-      if (state_class && present)
-        *state_class = it->type == ty ? "present name, same type" : "present name, other type";
-      if (!present)
-        m.push_back(Entry{o.n, ty, v, false});
-      else {
-        it->type = ty;  // the query status is only changed by reads and by the reset
-        it->value = v;
+      unsigned char ty = o.kind == SETI ? T_INT : o.kind == SETF ? T_FLOAT : T_STRING;
+      if (i < 0) {
+        Entry e = {(unsigned char)o.n, ty, (unsigned char)o.v, 0};
+        m.e[m.n++] = e;
+      } else {
+        cls = m.e[i].type == ty ? "present name, same type" : "present name, other type";
+        m.e[i].type = ty;  // the query status is only changed by reads and by the reset
+        m.e[i].val = (unsigned char)o.v;
       }
-      return "";
+      return -1;
     }
     case GETI:
     case GETF:
     case GETS: {
-      int ty = o.kind == GETI ? T_INT : o.kind == GETF ? T_FLOAT : T_STRING;
-      std::string dflt = o.kind == GETI ? pi(-7) : o.kind == GETF ? pf(-7.25f) : ps("dflt");
-      if (state_class && present)
-        *state_class = it->type == ty ? "present name, exact type" : "present name, other type";
-      if (!present || it->type != ty)
-        return dflt;
-      it->queried = true;
-      return it->value;
+      unsigned char ty = o.kind == GETI ? T_INT : o.kind == GETF ? T_FLOAT : T_STRING;
+      if (i < 0)
+        return 0;
+      cls = m.e[i].type == ty ? "present name, exact type" : "present name, other type";
+      if (m.e[i].type != ty)
+        return 0;
+      m.e[i].queried = 1;
+      return m.e[i].val;
     }
     case REMOVE:
-      if (present)
-        m.erase(it);
-      return "";
+      if (i >= 0) {
+        if (i == 0)
+          m.e[0] = m.e[1];
+        m.n--;
+      }
+      return -1;
     case RESET:
-      for (auto &e : m)
-        e.queried = false;
-      if (state_class)
-        *state_class = "any";
-      return "";
+      cls = "any";
+      for (int j = 0; j < m.n; j++)
+        m.e[j].queried = 0;
+      return -1;
     }
-    return "";
+    return -1;
   }
   void advance(Model &m, int op) const { apply(m, op); }
 
-  static std::string show(const Model &m)
+  typedef std::vector<std::pair<std::string, std::pair<std::string, bool>>> Items;  // name, printed value, queried
+  static Items items(const Model &m)
+  {
+    Items r;
+    for (int i = 0; i < m.n; i++)
+      r.push_back(std::make_pair(pname(m.e[i].name), std::make_pair(pv(m.e[i].type, m.e[i].val), m.e[i].queried != 0)));
+    return r;
+  }
+  static std::string show(const Items &m)
   {
     std::string s = "[";
     for (size_t i = 0; i < m.size(); i++)
-      s += std::string(i ? " " : "") + pname(m[i].name) + "=" + m[i].value + (m[i].queried ? "?" : "");
+      s += std::string(i ? " " : "") + m[i].first + "=" + m[i].second.first + (m[i].second.second ? "?" : "");
     return s + "]";
   }
 
@@ -486,160 +532,188 @@ struct PoSys
     std::unique_ptr<TestObject> obj;
     Run(const PoSys &s, sq::Ctx &c) : sys(s), ctx(c), obj(new TestObject()) {}
 
-    // ordered contents through params_begin()/params_end(); false when a parameter is unreadable
-    bool contents(Model &out, std::string &why) const
+    // fast path: do the parameters equal the model, in order?
+    bool same() const
     {
+      int i = 0;
+      for (auto p = obj->params_begin(); p != obj->params_end(); ++p, ++i) {
+        if (i >= model.n)
+          return false;
+        const ParameterizedObject::Param &pa = **p;
+        const Entry &e = model.e[i];
+        if (pa.name != pname(e.name) || pa.query != (e.queried != 0) || !pa.data.valid())
+          return false;
+        if (e.type == T_INT) {
+          if (!pa.data.is<int>() || pa.data.get<int>() != ival(e.val))
+            return false;
+        } else if (e.type == T_FLOAT) {
+          if (!pa.data.is<float>() || pa.data.get<float>() != fval())
+            return false;
+        } else {
+          if (!pa.data.is<std::string>() || pa.data.get<std::string>() != sval())
+            return false;
+        }
+      }
+      return i == model.n;
+    }
+    // slow path for the diagnostics
+    Items contents(std::string &why) const
+    {
+      Items out;
       for (auto p = obj->params_begin(); p != obj->params_end(); ++p) {
         const ParameterizedObject::Param &pa = **p;
-        Entry e;
-        e.name = pa.name == "a" ? 0 : pa.name == "b" ? 1 : pa.name == "c" ? 2 : 99;
-        e.queried = pa.query;
-        if (!pa.data.valid()) {
-          why = "parameter '" + pa.name + "' holds no value";
-          return false;
-        }
-        if (pa.data.is<int>()) {
-          e.type = T_INT;
-          e.value = pi(pa.data.get<int>());
-        } else if (pa.data.is<float>()) {
-          e.type = T_FLOAT;
-          e.value = pf(pa.data.get<float>());
+        std::string v;
+        char b[64];
+        if (!pa.data.valid())
+          v = "<no value>", why = "a parameter holds no value";
+        else if (pa.data.is<int>())
+          v = "i:" + std::to_string(pa.data.get<int>());
+        else if (pa.data.is<float>()) {
+          snprintf(b, sizeof b, "f:%g", pa.data.get<float>());
+          v = b;
         } else if (pa.data.is<std::string>()) {
-          e.type = T_STRING;
-          e.value = ps(pa.data.get<std::string>());
-        } else {
-          why = "parameter '" + pa.name + "' holds a value of a type that was never set";
-          return false;
-        }
-        out.push_back(e);
+          const std::string &x = pa.data.get<std::string>();
+          v = "s:" + (x.size() > 8 ? x.substr(0, 7) + "~" : x);
+        } else
+          v = "<other type>", why = "a parameter holds a value of a type that was never set";
+        out.push_back(std::make_pair(pa.name, std::make_pair(v, pa.query)));
       }
-      return true;
+      return out;
     }
-
-    static std::string classify(const Model &got, const Model &want)
+    static std::string classify(const Items &g, const Items &w)
     {
-      for (size_t i = 0; i < got.size(); i++)
-        for (size_t j = i + 1; j < got.size(); j++)
-          if (got[i].name == got[j].name)
-            return "a name is stored twice";
-      Model g = got, w = want;
+      auto find = [](const Items &m, const std::string &n) {
+        for (size_t i = 0; i < m.size(); i++)
+          if (m[i].first == n)
+            return (int)i;
+        return -1;
+      };
+      for (size_t i = 0; i < g.size(); i++)
+        for (size_t j = i + 1; j < g.size(); j++)
+          if (g[i].first == g[j].first)
+            return std::string("a name is stored twice");
       for (auto &e : w)
-        if (find(g, e.name) == g.end())
-          return "a set parameter is missing";
+        if (find(g, e.first) < 0)
+          return std::string("a set parameter is missing");
       for (auto &e : g)
-        if (find(w, e.name) == w.end())
-          return "a removed or never set parameter is present";
-      for (auto &e : w) {
-        Entry &x = *find(g, e.name);
-        if (x.type != e.type || x.value != e.value)
-          return "type/value is not the last one set";
-      }
+        if (find(w, e.first) < 0)
+          return std::string("a removed or never set parameter is present");
       for (auto &e : w)
-        if (find(g, e.name)->queried != e.queried)
-          return find(g, e.name)->queried ? "marked queried without a successful read since the reset" : "not marked queried after a successful read";
-      return "order is not first-insertion order";
+        if (g[find(g, e.first)].second.first != e.second.first)
+          return std::string("type/value is not the last one set");
+      for (auto &e : w)
+        if (g[find(g, e.first)].second.second != e.second.second)
+          return std::string(e.second.second ? "not marked queried after a successful read" : "marked queried without a successful read since the reset");
+      return std::string("order is not first-insertion order");
     }
-
     bool same_contents(const std::string &cls, const char *when)
     {
-      Model got;
-      std::string why;
-      if (!contents(got, why)) {
-        ctx.viol(cls + "|unreadable parameter", why);
-        return false;
-      }
-      if (got == model)
+      if (same())
         return true;
-      ctx.viol(cls + "|" + classify(got, model), std::string("parameters ") + when + " " + show(got) + " want " + show(model));
+      std::string why;
+      Items got = contents(why), want = items(model);
+      ctx.viol(cls + "|" + (why.empty() ? classify(got, want) : why), std::string("parameters ") + when + " " + show(got) + " want " + show(want));
       return false;
     }
 
     void step(int op, bool fresh)
     {
       const Op &o = sys.ops[op];
-      std::string sc;
-      std::string want = sys.apply(model, op, &sc);
-      std::string cls = o.cls + " (" + sc + ")";
-      std::string got;
-      const char *nm = pname(o.n);
+      const char *sc = "";
+      int want = sys.apply(model, op, &sc);
+      bool ok = true;
+      std::string gots;
       try {
         switch (o.kind) {
         case SETI:
-          obj->setParam<int>(nm, ival(o.v));
+          obj->setParam<int>(pname(o.n), ival(o.v));
           break;
         case SETF:
-          obj->setParam<float>(nm, fval());
+          obj->setParam<float>(pname(o.n), fval());
           break;
         case SETS:
-          obj->setParam<std::string>(nm, sval());
+          obj->setParam<std::string>(pname(o.n), sval());
           break;
-        case GETI:
-          got = pi(obj->getParam<int>(nm, -7));
+        case GETI: {
+          int g = obj->getParam<int>(pname(o.n), -7);
+          ok = g == (want ? ival(want) : -7);
+          if (!ok || ctx.verbose)
+            gots = "i:" + std::to_string(g);
           break;
-        case GETF:
-          got = pf(obj->getParam<float>(nm, -7.25f));
+        }
+        case GETF: {
+          float g = obj->getParam<float>(pname(o.n), -7.25f);
+          ok = g == (want ? fval() : -7.25f);
+          if (!ok || ctx.verbose)
+            gots = "f:" + std::to_string(g);
           break;
-        case GETS:
-          got = ps(obj->getParam<std::string>(nm, "dflt"));
+        }
+        case GETS: {
+          std::string g = obj->getParam<std::string>(pname(o.n), sdflt());
+          ok = g == (want ? sval() : sdflt());
+          if (!ok || ctx.verbose)
+            gots = "s:" + g;
           break;
+        }
         case REMOVE:
-          obj->removeParam(nm);
+          obj->removeParam(pname(o.n));
           break;
         case RESET:
           obj->resetAllParamQueryStatus();
           break;
         }
       } catch (const std::exception &ex) {
-        ctx.viol(cls + "|throws", std::string("exception: ") + ex.what());
+        ctx.viol(o.cls + " (" + sc + ")|throws", std::string("exception: ") + ex.what());
         return;
       }
-      if (got != want) {
-        ctx.viol(cls + "|returns neither the last value set with that exact type nor the caller's default as required", "got " + got + " want " + want + ", parameters " + show(model));
+      if (!ok) {
+        ctx.viol(o.cls + " (" + sc + ")|" + (want ? "does not return the last value set with that exact type" : "does not yield the caller's default"),
+            "got " + gots + ", parameters before the read " + show(items(model)) + " ('?' = queried)");
         return;
       }
       if (fresh) {
-        if (!same_contents(cls, "after the operation"))
+        if (!same_contents(o.cls + " (" + sc + ")", "after the operation"))
           return;
         // non-mutating questions, asked at every reached state
         for (int n = 0; n < 3; n++) {
-          bool present = find(model, n) != model.end();
+          bool present = n < 2 && model.find(n) >= 0;
           if (obj->hasParam(pname(n)) != present) {
-            ctx.viol(std::string("hasParam") + (present ? "|false for a set parameter" : "|true for an absent parameter"), std::string("hasParam(") + pname(n) + "), parameters " + show(model));
+            ctx.viol(std::string("hasParam") + (present ? "|false for a set parameter" : "|true for an absent parameter"), "hasParam(" + pname(n) + "), parameters " + show(items(model)));
             return;
           }
           // types no parameter was ever set with: the caller's default, and no query mark
-          double d = obj->getParam<double>(pname(n), -1.0);
-          long l = obj->getParam<long>(pname(n), -2L);
-          bool b = obj->getParam<bool>(pname(n), true);
-          unsigned u = obj->getParam<unsigned>(pname(n), 9u);
-          if (d != -1.0 || l != -2L || b != true || u != 9u) {
-            ctx.viol("getParam<other type>|does not yield the caller's default", std::string("name ") + pname(n) + ", parameters " + show(model));
+          if (obj->getParam<double>(pname(n), -1.0) != -1.0 || obj->getParam<long>(pname(n), -2L) != -2L) {
+            ctx.viol("getParam<type never set>|does not yield the caller's default", "name " + pname(n) + ", parameters " + show(items(model)));
             return;
           }
         }
-        if (!same_contents("hasParam / getParam<other type> after " + o.cls, "after the queries"))
+        if (!same_contents("hasParam / getParam<type never set> after " + o.cls, "after the queries"))
           return;
-        vr::outcome("po" + o.name + got + show(model));
+        uint64_t h = sq::mix(vr::fnv("po"), (uint64_t)op * 8 + (want + 1));
+        for (int i = 0; i < model.n; i++)
+          h = sq::mix(h, model.e[i].name * 64 + model.e[i].type * 16 + model.e[i].val * 2 + model.e[i].queried);
+        sq::outcomes().add(h);
       }
-      ctx.say("  %-6s %-26s -> %-10s parameters %s\n", o.name.c_str(), o.cls.c_str(), got.c_str(), show(model).c_str());
+      if (ctx.verbose) {
+        std::string why;
+        printf("  %-6s %-26s -> %-10s parameters %s   [reference %s]\n", o.name.c_str(), o.cls.c_str(), gots.c_str(), show(contents(why)).c_str(), show(items(model)).c_str());
+      }
     }
     void finish() { obj.reset(); }
     std::string describe() const
     {
-      Model m;
       std::string why;
-      contents(m, why);
-      return show(m);
+      return show(contents(why));
     }
   };
 };
 
 // ------------------------------------------------------------------------------------ driver
-static int arg_int(int argc, char **argv, const char *name, int dflt)
+static std::string arg_str(int argc, char **argv, const char *name, const std::string &dflt)
 {
   for (int i = 1; i + 1 < argc; i++)
     if (std::string(argv[i]) == name)
-      return atoi(argv[i + 1]);
+      return argv[i + 1];
   return dflt;
 }
 
@@ -662,18 +736,17 @@ int main(int argc, char **argv)
     printf("unknown replay tag '%s'\n", tag.c_str());
     return 2;
   }
-  const int depth = arg_int(argc, argv, "--depth", vr::thorough() ? 7 : 6);
-  const std::string only = [&]() {
-    for (int i = 1; i + 1 < argc; i++)
-      if (std::string(argv[i]) == "--only")
-        return std::string(argv[i + 1]);
-    return std::string();
-  }();
+  // depth per alphabet: FlatMap<string,string> costs the most per history and exercises the same code as <int,int>
+  const bool th = vr::thorough();
+  const int d_fi = atoi(arg_str(argc, argv, "--depth-fm-int", th ? "7" : "6").c_str());
+  const int d_po = atoi(arg_str(argc, argv, "--depth-po", th ? "7" : "6").c_str());
+  const int d_fs = atoi(arg_str(argc, argv, "--depth-fm-str", th ? "6" : "5").c_str());
+  const std::string only = arg_str(argc, argv, "--only", "");
   if (only.empty() || only == fi.tag())
-    sq::Explorer<FmSys<int, int>>(fi, depth, 128).explore();
-  if (only.empty() || only == po.tag())
-    sq::Explorer<PoSys>(po, depth, 128).explore();
+    sq::Explorer<FmSys<int, int>>(fi, d_fi, 128).explore();
   if (only.empty() || only == fs.tag())
-    sq::Explorer<FmSys<std::string, std::string>>(fs, depth, 128).explore();
+    sq::Explorer<FmSys<std::string, std::string>>(fs, d_fs, 128).explore();
+  if (only.empty() || only == po.tag())
+    sq::Explorer<PoSys>(po, d_po, 128).explore();
   return vr::finish();
 }
